@@ -37,10 +37,10 @@ Section Realm.
     end.
 
   (* if (_dtype == dt_set) { res = std::lower_bound(rng, rng + _sz, what);
-                             return res != rng + _sz ? res - rng : -1; }
+                             return res != rng + _sz && !(what < *res) ? res - rng : -1; }
      return 0;
-     [fixed = true] is the repaired form  res != rng + _sz && !(what < *res)  (candidate D8);
-     the pinned tree is [fixed = false]. *)
+     [fixed = true] is the code since commit 63dae2a; [fixed = false] is the original routine
+     (return res != rng + _sz ? res - rng : -1;  -- no equality test), kept for the refutation witness. *)
   Definition get_rlm_idx_gen (fixed : bool) (k : rkind) (S : list A) (v : A) : option (option nat) :=
     match k with
     | dt_set =>
@@ -58,7 +58,8 @@ Section Realm.
     | dt_range => Some (Some 0)
     end.
 
-  Definition get_rlm_idx := get_rlm_idx_gen false.
+  Definition get_rlm_idx := get_rlm_idx_gen true.
+  Definition get_rlm_idx_orig := get_rlm_idx_gen false.
 
   (* the printer:  if (_rlm && (idx = get_rlm_idx()) >= 0) os << _rlm->_descriptions[idx] << " (" << value << ')';
                    else os << value;
@@ -75,7 +76,35 @@ Section Realm.
       end
     end.
 
-  Definition describe {D : Type} := @describe_gen D false.
+  Definition describe {D : Type} := @describe_gen D true.
+
+  (* ---- the field object: Field<T, field>::is_valid() / get_rlm_idx() (one pair per specialisation
+     int, f8String, fp_type, char -- all with the same body) apply the realm function to the WHOLE
+     value held by the field; a field without a realm is always valid and has no index:
+       bool is_valid() const { return _rlm ? _rlm->is_valid(_value) : true; }
+       int get_rlm_idx() const { return _rlm ? _rlm->get_rlm_idx(_value) : -1; }
+     [rlm] = the realm the field points to, if any. *)
+  Definition field_is_valid (rlm : option (rkind * list A)) (v : A) : option bool :=
+    match rlm with
+    | None => Some true
+    | Some (k, R) => is_valid k R v
+    end.
+
+  Definition field_get_rlm_idx_gen (fixed : bool) (rlm : option (rkind * list A)) (v : A) : option (option nat) :=
+    match rlm with
+    | None => Some None
+    | Some (k, R) => get_rlm_idx_gen fixed k R v
+    end.
+
+  Definition field_get_rlm_idx := field_get_rlm_idx_gen true.
+
+  (* the printer tests _rlm first *)
+  Definition field_describe_gen {D : Type} (fixed : bool) (rlm : option (rkind * list A)) (descs : list D) (v : A)
+    : option (option D) :=
+    match rlm with
+    | None => Some None
+    | Some (k, R) => describe_gen fixed k R descs v
+    end.
 End Realm.
 
 Local Open Scope Z_scope.
